@@ -280,6 +280,52 @@ func runC16(c *eng.Ctx) {
 		c.Observe("EnableNamespaceLengthCheck is consulted by the flat decoder only (protobuf and line protocol take the namespace from the request); a minority of one, not armed")
 	})
 
+	// ---- 2b4. the pooled family iterator takes nothing over from the batch's previous use --------------------------------------------------
+	c.Rule("RESET", "series/metric.BrokerBatchShardFamilyIterator.reset{every argument-dependent field is set on every call}", func() {
+		fiT := "series/metric.BrokerBatchShardFamilyIterator"
+		f := c.Fn(fiT + ".reset")
+		n := 0
+		seen := map[string]bool{}
+		for _, s := range p.SitesDirect(f, func(p *eng.Prog, in ssa.Instruction) bool {
+			st, ok := in.(*ssa.Store)
+			if !ok {
+				return false
+			}
+			fa, ok := st.Addr.(*ssa.FieldAddr)
+			return ok && strings.HasPrefix(eng.FieldKeyOfAddr(fa), fiT+".")
+		}) {
+			st := s.Instr.(*ssa.Store)
+			k := eng.FieldKeyOfAddr(st.Addr.(*ssa.FieldAddr))
+			fromArg := false
+			for _, pr := range f.Params[1:] {
+				pr := pr
+				if eng.DependsOn(st.Val, func(x ssa.Value) bool { return x == ssa.Value(pr) }) {
+					fromArg = true
+				}
+			}
+			if !fromArg || seen[k] {
+				continue
+			}
+			seen[k] = true
+			n++
+			c.Check(p.MustPass(f, eng.StoreField(k), 0), "set-on-every-call:"+k[strings.LastIndex(k, ".")+1:], s.Instr, f,
+				"a field of the pooled iterator that is derived from reset's arguments (the rows, the database's write interval) is assigned on every call: the enclosing batch comes from a process-wide pool and serves databases with different intervals",
+				"the assignment is conditional: a value of the previous use survives")
+		}
+		c.Check(n >= 2, "argument-fields-found", nil, f, "reset stores the rows and the interval calculator", fmt.Sprintf("%d", n))
+	})
+	// ---- 2b5. every family group of a shard is written ---------------------------------------------------------------------------------------
+	c.Rule("PASS", dchT+".Write{every family group reaches its family channel}", func() {
+		f := c.Fn(dchT + ".Write")
+		for i, w := range c.Some(f, invokeOn("", "Write"), "familyChannel.Write(ctx, rows)") {
+			if w.Instr.Parent() != f {
+				continue
+			}
+			everyIterationPasses(c, f, w, fmt.Sprintf("no-family-skipped[%d]", i),
+				"every (shard, family) group handed out by the iterator is written: rows outside the window were already removed from the batch, a group is never dropped as a whole because of its first row")
+		}
+	})
+
 	// ---- 2c. rows are grouped into families of the SMALLEST configured interval --------------------------------------------------
 	c.Rule("PROV", "replica.newDatabaseChannel{write interval = smallest configured interval}", func() {
 		f := c.Fn("replica.newDatabaseChannel")
